@@ -142,6 +142,7 @@ def run(ctx):
     rng = ctx.rng("c06")
     nsnaps, ntorn, sessions_run, reqs, meta, distinct = 0, 0, 0, [], [], set()
     ireqs, imeta = [], []
+    nheal, heal_bad = 0, []
     plans = []
     for i in range(ctx.pick(3, 9)):
         fmt = ["fb", "npz", "tfrec"][i % 3]
@@ -176,6 +177,9 @@ def run(ctx):
             snaps = ctx.scratch / f"c06_{ci}_{si}_snaps"; snaps.mkdir()
             fid = {}
             before = disk_state(root, fid)
+            pre_copy = ctx.scratch / f"c06_{ci}_{si}_pre"
+            if si > 0 and (ctx.thorough or ci <= 1):
+                shutil.copytree(root, pre_copy)          # for the disk-full runs below (quick: the two directed plans)
             arg = ctx.scratch / "c06.arg.json"; out = ctx.scratch / "c06.out.json"
             if out.exists(): out.unlink()
             xdev = (ci + si) % 2 == 1          # every other session: each directory is a file system of its own (renames across directories fail)
@@ -223,6 +227,23 @@ def run(ctx):
                                f"{fmt} crash point {e['k']} ({e['tag']} {e.get('path', e.get('dst', ''))}): {probs[0]}",
                                {"plan": sess, "session_index": si, "event": e, "problems": probs[:5]})
                     break
+                if e["tag"] in ("rename", "after-rename") and rng.random() < ctx.pick(0.12, 0.3):
+                    # correspondence with `C06_next_session_heals`: from this crash state, a completed session into every split the
+                    # crashed session touched makes the whole dataset pass the integrity check again (nothing to repair by hand)
+                    hc = ctx.scratch / "c06_heal"
+                    if hc.exists(): shutil.rmtree(hc)
+                    shutil.copytree(sd, hc)
+                    try:
+                        hd = Dataset(hc)
+                        touched = sorted({int(s_) for s_ in written if written[s_]} | {w[0] for w in se.get("writes", [])} | {x[0] for w in se.get("writers", []) for x in w})
+                        with hd.filler() as hf:
+                            for s_ in touched:
+                                hf.write_example(values=sp.val(900000 + s_), split=T.SPLITS[s_])
+                        Dataset(hc).check(show_progressbar=False)
+                        nheal += 1
+                    except Exception as ex:  # noqa: BLE001
+                        heal_bad.append({"signature": sig, "plan": sess, "session_index": si, "event": e, "error": f"{type(ex).__name__}: {str(ex)[:200]}"})
+                    shutil.rmtree(hc, ignore_errors=True)
                 if e["tag"] in ("open", "rename") and rng.random() < ctx.pick(0.25, 0.6):
                     # torn variant: truncate every file that no reachable document names
                     info_named = set()
@@ -245,6 +266,29 @@ def run(ctx):
                             ctx.report(dict(sig, kind="torn-state"), f"{fmt} torn variant of crash point {e['k']}: {probs[0]}",
                                        {"plan": sess, "session_index": si, "event": e, "problems": probs[:5]})
                             break
+            # ---- the writer dies of an exception instead of a kill: the k-th metadata temp file cannot be written (disk full).  The
+            # same session is replayed on a copy of the dataset as it was before, for k at the start, middle and end of its temp writes
+            if pre_copy.exists():
+                ntmp = sum(1 for l in labels if l[0] == "tmpWrite")
+                for k in sorted({max(1, ntmp // 2), max(1, ntmp - 2), max(1, ntmp - 1)} | ({1, ntmp} if ctx.thorough else set())):
+                    work = ctx.scratch / f"c06_{ci}_{si}_full"
+                    if work.exists(): shutil.rmtree(work)
+                    shutil.copytree(pre_copy, work)
+                    out2 = ctx.scratch / "c06.out2.json"
+                    if out2.exists(): out2.unlink()
+                    arg.write_text(json.dumps(dict(se, root=str(work), snap=str(snaps), base=base, uuid_base=10 * si, nosnap=True, fail_write=k)))
+                    subprocess.run([PY, str(VERIF / "harness" / "checks" / "c06_writer.py"), str(arg), str(out2)], capture_output=True, text=True, timeout=900)
+                    res2 = json.loads(out2.read_text()) if out2.exists() else {"written": {}, "error": "no result"}
+                    w2 = {int(s_): v for s_, v in res2.get("written", {}).items()}
+                    probs = recover(work, committed, {s_: list(w2.get(s_, [])) for s_ in (0, 1, 2)})
+                    nsnaps += 1
+                    if probs:
+                        ctx.report(dict(sig, kind="crash-state", at="disk-full"),
+                                   f"{fmt} session dying of ENOSPC on its metadata temp file number {k} of {ntmp} ({res2.get('error')}): {probs[0]}",
+                                   {"plan": sess, "session_index": si, "fail_write": k, "problems": probs[:5]})
+                        break
+                    shutil.rmtree(work, ignore_errors=True)
+                shutil.rmtree(pre_copy, ignore_errors=True)
             # ---- correspondence: the observed effect order is accepted by M-CRASH
             reqs.append({"m": "crash", "closed": before["closed"], "docs": before["docs"], "roots": before["roots"], "trace": labels})
             meta.append((sig, sess, si, labels, idx))
@@ -319,7 +363,12 @@ def run(ctx):
         ctx.report({"kind": "correspondence-installs"}, f"M-TREE's effect order differs from the real session: {inst_bad[0]['difference']}",
                    {"correspondence": "sessionE installs = observed renames of shards_list.json (documents and order); prefixes = reader's view at each crash point",
                     "theorem": "Sedpack.Tree.C06_session_crash_points / C06_session_installs_valid", "cases": inst_bad[:2]}, name="corr-installs", nofail=True)
+    if heal_bad and not ctx.violations:
+        ctx.report({"kind": "correspondence-heal"}, f"a completed session after a crash state does not make the dataset pass check(): {heal_bad[0]['error']}",
+                   {"correspondence": "M-TREE: every split merged by a completed session is exact again, from any well-formed store", "theorem": "Sedpack.Tree.C06_next_session_heals",
+                    "cases": heal_bad[:2]}, name="corr-heal", nofail=True)
     ctx.cov.update({
+        "crash_states_healed_by_next_session": nheal,
         "installs_compared": ninst, "crash_states_compared_with_model": ncrash,
         "evaluations": nsnaps + ntorn, "distinct_nontrivial": len(distinct), "traces_validated_against_impl": sessions_run - len(corr_bad),
         "crash_snapshots": nsnaps, "torn_variants": ntorn, "sessions": sessions_run,
